@@ -231,7 +231,7 @@ theorem einv_step {cfg : Cfg} {log : Log} {s s' : State} (e : TEv) (hcfg : s.cfg
         · intro x a b d hx hxc; rw [hx] at hwho; simp only [Ev.who, Option.some.injEq] at hwho; omega
         · intro d hx; rw [hx] at hwho; simp only [Ev.who, Option.some.injEq] at hwho; exact hcc hwho
 
-theorem einv_exec_gen {cfg : Cfg} (hid : cfg.ident = []) : ∀ (evs pre : List TEv) (s0 s : State), Inv pre s0 →
+theorem einv_exec_gen {cfg : Cfg} : ∀ (evs pre : List TEv) (s0 s : State), Inv pre s0 →
     TInv cfg pre s0 → EInv cfg pre s0 → exec s0 evs = some s → EInv cfg (pre ++ evs) s
   | [], pre, s0, s, _, _, hv, h => by simp [exec] at h; subst h; simpa using hv
   | e :: es, pre, s0, s, hi, ht, hv, h => by
@@ -240,13 +240,13 @@ theorem einv_exec_gen {cfg : Cfg} (hid : cfg.ident = []) : ∀ (evs pre : List T
     | none => simp [hst] at h
     | some s1 =>
       simp only [hst] at h
-      have := einv_exec_gen hid es (pre ++ [e]) s1 s (inv_step e hi hst) (tinv_step e hi hid ht hst)
+      have := einv_exec_gen es (pre ++ [e]) s1 s (inv_step e hi hst) (tinv_step e ht hst)
         (einv_step e ht.cfg_eq hv hst) h
       simpa using this
 
-theorem einv_exec (cfg : Cfg) (cbs : List Nat) (evs : List TEv) (s : State) (hid : cfg.ident = [])
+theorem einv_exec (cfg : Cfg) (cbs : List Nat) (evs : List TEv) (s : State)
     (h : exec { cfg := cfg, cbsReg := cbs } evs = some s) : EInv cfg evs s := by
   have h0 : EInv cfg [] { cfg := cfg, cbsReg := cbs } := ⟨fun c hp => by simp at hp⟩
-  simpa using einv_exec_gen hid evs [] _ s (inv_init cfg cbs) (tinv_init cfg cbs) h0 h
+  simpa using einv_exec_gen evs [] _ s (inv_init cfg cbs) (tinv_init cfg cbs) h0 h
 
 end Frappy.Comm
